@@ -39,6 +39,7 @@ type TLCResult struct {
 	Cases               int64
 	Violated            string // invariant / property / postcondition TLC reports as violated
 	Errors              []string
+	errCtx              int
 	Tail                []string
 	Wall                time.Duration
 	Finished            bool
@@ -202,6 +203,11 @@ func handleTLCLine(line string, res *TLCResult, onCase func(json.RawMessage), no
 		}
 	} else if strings.HasPrefix(line, "Error:") {
 		res.Errors = append(res.Errors, trunc(line, 400))
+		res.errCtx = 3
+	} else if res.errCtx > 0 && strings.TrimSpace(line) != "" {
+		// (the reason of an evaluation error stands on the lines after "Error: Evaluating ... failed.")
+		res.errCtx--
+		res.Errors = append(res.Errors, "  "+trunc(line, 300))
 	}
 	if len(res.Tail) >= 40 {
 		res.Tail = res.Tail[1:]
